@@ -129,6 +129,20 @@ def custom_templates(rng, mn, structure):
                  _st(1, [1], 0, 0, 'HIGH_HAND', 2 * mn, cap),
                  _st(0, [], 0, 1, 'HIGH_HAND', 2 * mn, cap)],
         maxn=6, stud=True)
+    t['boarddraw'] = dict(  # community cards first, then draws
+        deck='STANDARD', hand_types=['StandardHighHand'],
+        streets=[_st(0, [0] * 3, 0, 0, P, mn, cap),
+                 _st(1, [], 5, 0, P, mn, cap),
+                 _st(1, [], 0, 1, P, 2 * mn, cap),
+                 _st(0, [], 0, 1, P, 2 * mn, cap)], maxn=6, stud=False)
+    t['studboard'] = dict(  # stud whose last street also deals a board card
+        deck='STANDARD', hand_types=['StandardHighHand'],
+        streets=[_st(0, [0, 0, 1], 0, 0, 'LOW_CARD', mn, cap),
+                 _st(1, [1], 0, 0, 'HIGH_HAND', mn, cap),
+                 _st(1, [1], 0, 0, 'HIGH_HAND', 2 * mn, cap),
+                 _st(1, [1], 0, 0, 'HIGH_HAND', 2 * mn, cap),
+                 _st(1, [0], 1, 0, 'HIGH_HAND', 2 * mn, cap)],
+        maxn=9, stud=True)
     t['greek'] = dict(
         deck='STANDARD', hand_types=['GreekHoldemHand'],
         streets=[_st(0, [0, 0], 0, 0, P, mn, cap),
